@@ -586,7 +586,7 @@ class Group:
 
     def write_raw(self):
         os.makedirs(OUT, exist_ok=True)
-        text = ("/- GENERATED by tools/extract.py from %s — do not edit. -/\nnamespace BLDFM.Generated.Tables\n\n" % self.src
+        text = ("/- GENERATED by tools/extract.py from %s — do not edit. -/\nimport BLDFM.Cache\nnamespace BLDFM.Generated.Tables\n\n" % self.src
                 + "\n".join(self.defs) + "\nend BLDFM.Generated.Tables\n")
         path = os.path.join(OUT, self.name + ".lean")
         old = open(path).read() if os.path.exists(path) else None
@@ -1024,6 +1024,79 @@ def tables_group():
         g.report["levelStore"] = "ok"
     except Exception as e:  # noqa: BLE001
         g.report["levelStore"] = "FAILED: %r" % (e,)
+    # C15: cache key fields, halo resolution at the two call sites, write protocol, guarded load
+    try:
+        ctree = ast.parse(open(os.path.join(REPO_SRC, "cache.py")).read())
+        cls = [n for n in ast.walk(ctree) if isinstance(n, ast.ClassDef) and n.name == "GreensFunctionCache"][0]
+        cf = {n.name: n for n in cls.body if isinstance(n, ast.FunctionDef)}
+        ck = cf["_compute_key"]
+        params = [a.arg for a in ck.args.args if a.arg != "self"]
+        hashed = set()
+        loop_alias = {}
+        for n in ast.walk(ck):
+            if isinstance(n, ast.For) and isinstance(n.iter, ast.Name):
+                loop_alias[ast.unparse(n.target)] = n.iter.id
+        extra_names = []
+        for n in ast.walk(ck):
+            if isinstance(n, ast.Assign) and isinstance(n.targets[0], ast.Tuple) and ast.unparse(n.value) == "extra":
+                extra_names = [ast.unparse(e) for e in n.targets[0].elts]
+        for n in ast.walk(ck):
+            if isinstance(n, ast.Call) and ast.unparse(n.func).endswith(".update"):
+                for nm in ast.walk(n):
+                    if isinstance(nm, ast.Name):
+                        hashed.add(loop_alias.get(nm.id, nm.id))
+        pos_fields = {"z": "z", "profiles": "profiles", "domain": "domain", "modes": "modes", "meas_pt": "measPt",
+                      "halo": "halo", "precision": "precision"}
+        key_fields = [pos_fields[p_] for p_ in params if p_ in pos_fields and p_ in hashed]
+        # call sites in the solver
+        stree = ast.parse(open(os.path.join(REPO_SRC, "solver.py")).read())
+        sfn = [n for n in ast.walk(stree) if isinstance(n, ast.FunctionDef) and n.name == "steady_state_transport_solver"][0]
+        extra_at_site = None
+        resolved_names = set()
+        halo_resolution_line = None
+        calls = {}
+        for n in ast.walk(sfn):
+            if isinstance(n, ast.Assign):
+                t = ast.unparse(n.targets[0])
+                v = ast.unparse(n.value)
+                if "max(" in v and "halo" in v and "None" in v:
+                    resolved_names.add(t)
+                if isinstance(n.value, ast.Tuple) and t.startswith("cache"):
+                    extra_at_site = [ast.unparse(e) for e in n.value.elts]
+            if isinstance(n, ast.If) and ast.unparse(n.test) == "halo is None":
+                halo_resolution_line = n.lineno
+            if isinstance(n, ast.Call) and ast.unparse(n.func) in ("cache.get", "cache.put"):
+                calls[ast.unparse(n.func)] = n
+        def halo_resolved(call):
+            arg = ast.unparse(call.args[5])
+            if arg in resolved_names:
+                return True
+            return arg == "halo" and halo_resolution_line is not None and call.lineno > halo_resolution_line
+        def has_extra(call):
+            return any(kw.arg == "extra" for kw in call.keywords)
+        site_map = {"levels": "levels", "np.shape(srf_flx)": "shape", "srf_flx.shape": "shape", "q0.shape": "shape",
+                    "analytic": "analytic", "srf_bg_conc": "bg", "p000": "bg"}
+        if extra_names and extra_at_site and has_extra(calls["cache.get"]) and has_extra(calls["cache.put"]) and "extra" in params:
+            for nm, site in zip(extra_names, extra_at_site):
+                if nm in hashed and site in site_map:
+                    key_fields.append(site_map[site])
+        put = cf["put"]
+        atomic = any(isinstance(n, ast.Call) and ast.unparse(n.func) in ("os.replace", "os.rename") for n in ast.walk(put))
+        get = cf["get"]
+        guarded = False
+        for n in ast.walk(get):
+            if isinstance(n, ast.Try):
+                if any(isinstance(m, ast.Call) and ast.unparse(m.func) in ("np.load", "numpy.load") for m in ast.walk(n)):
+                    guarded = True
+        cfgd = dict(keyFields=key_fields, haloResolvedAtGet=bool(halo_resolved(calls["cache.get"])),
+                    haloResolvedAtPut=bool(halo_resolved(calls["cache.put"])), atomicWrite=bool(atomic), guardedLoad=bool(guarded))
+        lines.append("def cacheCfg : BLDFM.CacheCfg := { keyFields := [%s], haloResolvedAtGet := %s, haloResolvedAtPut := %s, atomicWrite := %s, guardedLoad := %s }" % (
+            ", ".join(".%s" % f for f in key_fields), str(cfgd["haloResolvedAtGet"]).lower(), str(cfgd["haloResolvedAtPut"]).lower(),
+            str(atomic).lower(), str(guarded).lower()))
+        g.report["cacheCfg"] = "ok"
+        g.report["_cacheCfg"] = cfgd
+    except Exception as e:  # noqa: BLE001
+        g.report["cacheCfg"] = "FAILED: %r" % (e,)
     # C20: the statement sequences of get_source_area and extract_percentile_contour (canonical text)
     try:
         def body_text(path, name):
